@@ -285,3 +285,24 @@ func TestReplayC16(t *testing.T) {
 		t.Fatalf("property C16 violated (replay %s): %v", p, err)
 	}
 }
+
+// FuzzC16: the sampled part of C16 under Go's coverage-guided fuzzer (thorough tier).
+func FuzzC16(f *testing.F) {
+	st := engine.StatsFor("C16")
+	full := strings.Split(definedMask.String(), "|")
+	f.Add(uint32(0), uint32(0), []byte(""), []byte(""))
+	f.Add(uint32(0x1ff), uint32(0xffffffff), []byte("a\"b\n"), []byte("\xff"))
+	f.Add(uint32(1<<31|1), uint32(6), []byte("new"), []byte("old"))
+	f.Fuzz(func(t *testing.T, o, h uint32, name, from []byte) {
+		st.Eval()
+		if err := checkOpString(fsnotify.Op(o), full); err != nil {
+			fail16(t, c16Replay{Kind: "string", O: o}, err)
+		}
+		if err := checkHas(fsnotify.Op(o), fsnotify.Op(h)); err != nil {
+			fail16(t, c16Replay{Kind: "has", O: o, H: h}, err)
+		}
+		if err := checkEventString(string(name), string(from), fsnotify.Op(o)); err != nil {
+			fail16(t, c16Replay{Kind: "event", O: o, Name: strconv.QuoteToASCII(string(name)), From: strconv.QuoteToASCII(string(from))}, err)
+		}
+	})
+}
